@@ -99,6 +99,10 @@ def gen_case(rng, tier):
                                                           '    format: "{date:%m/%d/%Y},{description},{amount}"\n')
         files['elsewhere-budget/data/decoy.csv'] = 'Date,Description,Amount\n01/02/2025,DECOY SHOP r9901,777.00\n'
         case['env_decoy'] = True
+    if rng.random() < 0.15:
+        # stderr has gone away (closed terminal, `2>&1 | head`, a full disk behind 2>log): every write to it fails.  The command may
+        # die of it; a report it does produce is the right one
+        case['stderr_broken'] = True
     case['world'] = util.snap_to_json({r: c.encode('utf-8') for r, c in files.items()})
     return case
 
@@ -278,6 +282,8 @@ def execute(case, scratch):
         plan = {'net': 'down', 'reads': reads}
         if case.get('env_decoy'):
             plan['env'] = {'TALLY_CONFIG': os.path.join(os.path.realpath(root), 'elsewhere-budget', 'config')}
+        if case.get('stderr_broken'):
+            plan['stdout_fault'] = {'after_effect': -1, 'stream': 'stderr'}
         r = proc.run_cli(root, argv, plan, cwd=cwd, ctl_parent=ctlp)
         count['sim_processes'] += 1
         return r
@@ -305,7 +311,9 @@ def execute(case, scratch):
             if r.exit == 0 and os.path.exists(html_path):
                 with open(html_path, 'r', encoding='utf-8') as fh:
                     data = rp.extract_spending_data(fh.read())
-            if data is None:
+            if data is None and case.get('stderr_broken') and r.exit != 0:
+                count['died_of_broken_stderr'] = count.get('died_of_broken_stderr', 0) + 1
+            elif data is None:
                 add('WIRE', 'no-report', 'none', 'fault-free `tally up` exits %d and wrote no readable report: %s'
                     % (r.exit, (r.err.strip().split('\n') or [''])[-1][:300]), None)
             else:
@@ -315,7 +323,9 @@ def execute(case, scratch):
             r = run_up('json', {})
             doc = parse_json_report(r.out) if r.exit == 0 else None
             log.append(['json', r.exit, util.sha(util.norm_text(r.out, root))])
-            if doc is None:
+            if doc is None and case.get('stderr_broken') and r.exit != 0:
+                count['died_of_broken_stderr'] = count.get('died_of_broken_stderr', 0) + 1
+            elif doc is None:
                 add('WIRE', 'no-report', 'none', 'fault-free `tally up --format json` exits %d: %s' % (r.exit, (r.err.strip().split('\n') or [''])[-1][:300]), None)
             else:
                 for what, w in compare_json(model, doc):
@@ -339,6 +349,8 @@ def execute(case, scratch):
                 text = r.out + '\n' + r.err
                 log.append(['supp-fault', f, fmt, r.exit, util.sha(util.norm_text(text, root))])
                 if f['kind'] in ('EIO', 'EIO-once') and not any(e.get('k') == 'readfault' for e in r.events):
+                    continue
+                if r.exit != 0 and case.get('stderr_broken'):
                     continue
                 if r.exit != 0:
                     add('ISO', 'aborted', 'supplemental-' + f['kind'], 'supplemental source %s cannot be loaded (%s) and `tally up` exits %d: %s'
@@ -469,6 +481,9 @@ def execute(case, scratch):
                     add('REP', 'all-sources-failed-exit-0', f['kind'], 'every source fails (%s) yet `tally up` exits 0' % failing, f)
                 elif 'No transactions found' not in text and 'Traceback' in text:
                     add('REP', 'all-sources-failed-traceback', f['kind'], 'every source fails (%s): %s' % (failing, text.strip().split('\n')[-1][:200]), f)
+                continue
+            if r.exit != 0 and case.get('stderr_broken'):
+                count['died_of_broken_stderr'] = count.get('died_of_broken_stderr', 0) + 1
                 continue
             if r.exit != 0:
                 add('ISO', 'aborted', f['kind'], 'source %s fails (%s) and `tally up` exits %d although other sources have %d transactions: %s'
